@@ -394,14 +394,22 @@ func Round3Generic(c *Ctx, id string) {
 		return
 	}
 	switch id {
+	case "C17":
+		c19Small(c)
 	case "C20":
+		addCountsSpawnedLoop(c, "add-counts-spawned-loop", true, pkgGraphql)
 		c20Round3(c, true)
 	case "C19":
 		rewriterRound3(c)
 	case "C18":
+		c19Small(c)
 		rewriterRound3(c)
 		c20Round3(c, true)
 	case "C11":
+		c05StreamSelect(c)
+		deferredReceiveCancellable(c)
+		c05ForkJoin(c)
+		layoutAgreement(c)
 		wireSwitchHasDefault(c)
 		wsRejectedOperationAnswered(c)
 		ctxParamUsed(c, "ctx-param-used", pkgTransport)
@@ -429,6 +437,7 @@ func Round3Generic(c *Ctx, id string) {
 		c05WG(c)
 		c04HandlerShape(c)
 	case "C03":
+		c09StatusVsDispatch(c, nil)
 		mutatorListsInOrderAndComplete(c)
 		rawParamsReadAfterMutators(c)
 		createReturnsContext(c)
@@ -463,6 +472,10 @@ func Round3Generic(c *Ctx, id string) {
 		dispatchCtxCarriesOperation(c)
 		rawParamsJSONNames(c)
 	case "C07":
+		c11TerminalFrame(c)
+		batchHasNextFromLast(c)
+		nilCheckContradiction(c, "nil-check-contradiction", pkgTransport)
+		c06ResponseLocks(c)
 		dispatchCtxCarriesOperation(c)
 		mapRangeSorted(c, "map-range-sorted", modPath("graphql/introspection"), pkgExecutor, pkgGraphql)
 	case "C02":
@@ -489,11 +502,16 @@ func Round3Generic(c *Ctx, id string) {
 		c02ArgErrors(c)
 		c01Invalids(c)
 	case "C13":
+		c12Round2(c)
 		genRound3(c, "deferred-set-fresh", "hasnext-per-payload")
 		valueReceiverCopiesSync(c, "value-receiver-copies-sync", true, pkgTransport, pkgGraphql)
 		rootOnce(c)
 		genRound3(c, "deferred-fields")
 	case "C05":
+		locksReleasedIn(c, "locks-released-extensions", modPath("graphql/handler/apollotracing"), modPath("graphql/handler/apollofederatedtracingv1"), pkgExtension)
+		noReentrantLock(c, "no-reentrant-lock", modPath("graphql/handler/apollotracing"), modPath("graphql/handler/apollofederatedtracingv1"), pkgExtension, pkgGraphql, pkgTransport, pkgExecutor, pkgHandler)
+		oneShotIsOneShot(c)
+		addCountsSpawnedLoop(c, "add-counts-spawned-loop", true, pkgGraphql)
 		valueReceiverCopiesSync(c, "value-receiver-copies-sync", true, pkgTransport, pkgGraphql)
 		ctxParamUsed(c, "ctx-param-used", pkgTransport)
 		wgAddBeforeGo(c, "wg-add-before-go", true, pkgGraphql, pkgTransport)
@@ -501,6 +519,9 @@ func Round3Generic(c *Ctx, id string) {
 		genRound3(c, "stream-closed", "worker-limit")
 		stopDeferredAtOnce(c)
 	case "C06":
+		noSharedErrorValues(c)
+		batchHasNextFromLast(c)
+		c02InputTable(c)
 		valueReceiverCopiesSync(c, "value-receiver-copies-sync", true, pkgTransport, pkgGraphql)
 		wgAddBeforeGo(c, "wg-add-before-go", true, pkgGraphql)
 		var feds []*GenPkg
@@ -545,6 +566,9 @@ func Round3Generic(c *Ctx, id string) {
 		uploadFieldsFromPart(c)
 		seekBasePerWhence(c)
 	case "C12":
+		oneShotIsOneShot(c)
+		locksReleased(c, pkgTransport)
+		genRound2(c)
 		genRound3(c, "response-buffer")
 		genRound3(c, "hasnext-per-payload")
 		valueReceiverCopiesSync(c, "value-receiver-copies-sync", true, pkgTransport, pkgGraphql)
